@@ -957,7 +957,7 @@ pub fn execute(plan: &PipelinePlan, prop: &'static str) -> Outcome<PipelinePlan>
                 exec::trace(|| format!("main loop: record #{} frame={} ts={:.6} members={:?}", n, world::hex(&msg.frame), msg.timestamp - exec::EPOCH_S as f64, msg.metadata.iter().map(|m| (m.serial, m.nanoseconds)).collect::<Vec<_>>()));
                 let mut m2 = app::clone_tm(msg);
                 let db = BTreeMap::new();
-                app::now_or_never(crate::snapshot::update_snapshot(&shadow, &mut m2, &db)).expect("shadow update must not suspend");
+                app::now_or_never(crate::snapshot::update_snapshot(&shadow, &mut m2, &db)).expect("shadow update never completed");
                 let t = c12::table_text(&shadow.try_lock().expect("shadow is private"));
                 let mut s = sh.borrow_mut();
                 s.shadow_tables.push(t);
@@ -1374,7 +1374,11 @@ pub fn execute(plan: &PipelinePlan, prop: &'static str) -> Outcome<PipelinePlan>
             let want = if *n_done == 0 { "[]".to_string() } else { sh.shadow_tables[*n_done - 1].clone() };
             if *body != want && c12::canonical_all(body) != c12::canonical_all(&want) {
                 let next = sh.shadow_tables.get(*n_done);
-                let loc = if next.map_or(false, |n| c12::canonical_all(n) == c12::canonical_all(body)) { "update-visible-before-completion" } else { "half-applied-or-foreign-state" };
+                // (the record in flight may already be visible, completely)
+                if next.map_or(false, |n| c12::canonical_all(n) == c12::canonical_all(body)) {
+                    continue;
+                }
+                let loc = "half-applied-or-foreign-state";
                 let b: Value = serde_json::from_str(body).unwrap_or(Value::Null);
                 let w: Value = serde_json::from_str(&want).unwrap_or(Value::Null);
                 viols.push(Violation::new("c12.5-atomic", loc, format!("pipeline: an /all reply taken after {} completed updates differs from the sequential table: reply {} vs sequential {}", n_done, c12::first_diff_entry(&b, &w), c12::first_diff_entry(&w, &b))));
